@@ -550,6 +550,15 @@ impl<K, V> TreeBin<K, V> {
         let next = p_deref.node.next.load(Ordering::SeqCst, guard);
         let prev = p_deref.prev.load(Ordering::SeqCst, guard);
 
+        // Take the write lock _before_ unlinking `p` from the linear traversal. From the
+        // unlink on, the `next` list no longer contains `p` while the tree still does, so the
+        // two must not be readable at the same time: a reader that still walks the list
+        // because of a _previous_ writer would miss `p`, and a reader arriving after it has
+        // returned would find `p` in the tree again. With the lock held, every reader walks the
+        // list until `p` is gone from the tree as well (or until the whole bin is replaced by
+        // the caller, see below).
+        self.lock_root(guard, collector);
+
         // unlink traversal pointers
         if prev.is_null() {
             // the node to delete is the first node
@@ -572,12 +581,16 @@ impl<K, V> TreeBin<K, V> {
             // In that case, we have removed the last node from this bin and
             // don't have a tree anymore, so we reset `self.root`.
             self.root.store(Shared::null(), Ordering::SeqCst);
+            // NOTE: the write lock stays held: the caller replaces this (now empty) bin
             return true;
         }
 
         // if we are now too small to be a `TreeBin`, we don't need to worry
         // about restructuring the tree since the bin will be untreeified
         // anyway, so we check that
+        // NOTE: when we return `true` here, `p` is still part of the tree. The write lock is
+        // deliberately _not_ released on these paths, so that readers keep to the list until
+        // the caller has swapped this `TreeBin` out of the table; it is never unlocked again.
         let mut root = self.root.load(Ordering::SeqCst, guard);
         // TODO: Can `root` even be `null`?
         // The Java code has `NULL` checks for this, but in theory it should not be possible to
@@ -608,7 +621,6 @@ impl<K, V> TreeBin<K, V> {
         // if we get here, we know that we will still be a tree and have
         // unlinked the `next` and `prev` pointers, so it's time to restructure
         // the tree
-        self.lock_root(guard, collector);
         // NOTE: since we have the write lock for the tree, we know that all
         // readers will read along the linear `next` pointers until we release
         // the lock (these pointers were adjusted above to exclude the removed
